@@ -677,7 +677,12 @@ pub fn family6() -> Vec<u64> {
 /// every binary connective and `not` on every pair of the 6-variable family, `ite` on every
 /// triple of a 40-member sub-family; operands are interned canonical diagrams
 pub fn sweep_family6(ctx: &mut Ctx, oracle: Oracle, prop_tag: &str) {
-    let syms = [0usize, 2, 3, 5, 8, 13];
+    // small ids with small gaps, and large ids with large gaps
+    sweep_family6_on(ctx, oracle, prop_tag, [0usize, 2, 3, 5, 8, 13]);
+    sweep_family6_on(ctx, oracle, prop_tag, [7usize, 64, 65, 300, 4096, 1_000_000]);
+}
+
+fn sweep_family6_on(ctx: &mut Ctx, oracle: Oracle, prop_tag: &str, syms: [usize; 6]) {
     let sp = Space::<usize>::empty(&syms);
     let fam = family6();
     let mut hs: Vec<Rc<BDD<usize>>> = vec![];
@@ -686,7 +691,7 @@ pub fn sweep_family6(ctx: &mut Ctx, oracle: Oracle, prop_tag: &str) {
         match guarded(|| sp.intern(&c)) {
             Ok(h) if *h == *c => hs.push(h),
             _ => {
-                ctx.violation(format!("{prop_tag} family6: building operands"), format!("mk_choice did not reproduce the canonical diagram of {t:#x}"), json!({"part": "family6", "op": "not", "operands": [0]}));
+                ctx.violation(format!("{prop_tag} family6 syms={syms:?}: building operands"), format!("mk_choice did not reproduce the canonical diagram of {t:#x}"), json!({"part": "family6", "syms": syms, "op": "not", "operands": [0]}));
                 return;
             }
         }
@@ -695,7 +700,7 @@ pub fn sweep_family6(ctx: &mut Ctx, oracle: Oracle, prop_tag: &str) {
     let mut idx = 0u64;
     let mut one = |ctx: &mut Ctx, op: ApiOp, ix: &[usize]| {
         let tts: Vec<u64> = ix.iter().map(|i| fam[*i]).collect();
-        let case = || json!({"part": "family6", "op": op.name(), "operands": ix});
+        let case = || json!({"part": "family6", "syms": syms, "op": op.name(), "operands": ix});
         ctx.begin_case(case);
         ctx.count("transitions", 1);
         ctx.count("distinct_by_construction", 1);
@@ -744,7 +749,7 @@ pub fn replay_family6(ctx: &mut Ctx, case: &Value, oracle: Oracle, prop_tag: &st
     let mut c2 = Ctx::new(prop_tag, ctx.tier, ctx.seed, 0, 1);
     sweep_family6(&mut c2, oracle, prop_tag);
     for v in c2.violations {
-        if v.replay["op"] == case["op"] && v.replay["operands"] == case["operands"] {
+        if v.replay["op"] == case["op"] && v.replay["operands"] == case["operands"] && v.replay["syms"] == case["syms"] {
             ctx.violation(v.key, v.what, v.replay);
         }
     }
